@@ -299,6 +299,21 @@ def generate(repo, outdir):
             prefix[n] = parse_prefix(*pats[n]); del errors[n]
         except (TranslateError, re.error):
             pass
+    # a pattern that cannot be translated must not take the whole Lean build (and with it every other property's
+    # check) down: it is emitted WITHOUT the flags we do not model, or as the pattern that matches nothing, and stays
+    # listed in `errors` — every check that needs it reports the broken tie and searches the implementation
+    for n in list(errors):
+        p, fl = pats[n]
+        try:
+            trees[n] = parse(p, fl & re.UNICODE)
+            errors[n] += ' (emitted without the unmodelled flags: the model does NOT represent this pattern)'
+        except (TranslateError, re.error):
+            try:
+                prefix[n] = parse_prefix(p, fl & re.UNICODE)
+                errors[n] += ' (emitted as a prefix pattern without the unmodelled flags)'
+            except (TranslateError, re.error):
+                trees[n] = ('seq', [('bol',), ('cls', ()), ('eol',)])
+                errors[n] += ' (emitted as the pattern that matches nothing)'
     classes = set()
     for t in trees.values(): collect_classes(t, classes)
     for t in prefix.values(): collect_classes(t, classes)
